@@ -347,20 +347,20 @@ Definition dec_qb_legacy (j : option json) : option (option qexpr) :=
 Definition dec_colq_legacy := dec_colq_with dec_qb_legacy.
 
 (* ---- glue 1: bunpaginate.GetPageSize ------------------------------------------------------------------- *)
-Inductive psparam := PAbsent | PInvalid | PNum (n : nat).
-(* None = ErrInvalidPageSize (HTTP 400) *)
-Definition get_page_size (dflt max : nat) (p : psparam) : option nat :=
+Inductive psparam := PAbsent | PInvalid | PNum (n : N).
+(* None = ErrInvalidPageSize (HTTP 400); N because the parameter is any 32-bit number *)
+Definition get_page_size (dflt max : N) (p : psparam) : option N :=
   match p with
   | PAbsent => Some dflt
   | PInvalid => None
-  | PNum n => if n =? 0 then Some dflt else if max <? n then Some max else Some n
+  | PNum n => if N.eqb n 0 then Some dflt else if N.ltb max n then Some max else Some n
   end.
 (* before "fix: pageSize=0": zero was handed to the store as is *)
-Definition get_page_size_legacy (dflt max : nat) (p : psparam) : option nat :=
+Definition get_page_size_legacy (dflt max : N) (p : psparam) : option N :=
   match p with
   | PAbsent => Some dflt
   | PInvalid => None
-  | PNum n => if max <? n then Some max else Some n
+  | PNum n => if N.ltb max n then Some max else Some n
   end.
 
 (* ---- glue 2: what a ledger's listing ranges over ---------------------------------------------------------- *)
@@ -370,6 +370,10 @@ Definition lrow_key (r : lrow) : N * Z := (lr_ledger r, lr_id r).
 (* the sort keys the listing of ledger [l] ranges over; [restrict] = the query has `ledger = l` in its WHERE *)
 Definition ranged (restrict : bool) (l : N) (t : list lrow) : list Z :=
   map lr_id (if restrict then filter (fun r => N.eqb (lr_ledger r) l) t else t).
+
+(* strings with bytes outside printable ASCII are written by the harness as byte lists *)
+Definition bytes_to_string (l : list nat) : string :=
+  fold_right (fun n s => String (Ascii.ascii_of_nat n) s) EmptyString l.
 
 (* ---- correspondence: one observation of the real code ---------------------------------------------------- *)
 Fixpoint list_eqb {A} (eqb : A -> A -> bool) (l1 l2 : list A) : bool :=
@@ -451,7 +455,7 @@ Inductive case :=
 | CaseEncCol (q : colq) (wire : json) (accepted : bool)    (* EncodeCursor, then UnmarshalCursor of the result *)
 | CaseEncOff (q : offq) (wire : json) (accepted : bool)
 | CaseDecCol (wire : json) (decoded : option colq)          (* UnmarshalCursor of a (possibly foreign) document *)
-| CasePageSize (dflt max : nat) (p : psparam) (res : option nat).
+| CasePageSize (dflt max : N) (p : psparam) (res : option N).
 
 Definition check_case (c : case) : bool :=
   match c with
@@ -472,7 +476,7 @@ Definition check_case (c : case) : bool :=
   | CaseEncOff q wire accepted =>
       json_eqb (enc_offq q) wire && accepted && opt_eqb offq_eqb (dec_offq wire) (Some q)
   | CaseDecCol wire decoded => opt_eqb colq_eqb (dec_colq wire) decoded
-  | CasePageSize dflt max p res => opt_eqb Nat.eqb (get_page_size dflt max p) res
+  | CasePageSize dflt max p res => opt_eqb N.eqb (get_page_size dflt max p) res
   end.
 
 Fixpoint bad_cases {A} (chk : A -> bool) (n : nat) (l : list A) : list nat :=
